@@ -90,7 +90,14 @@ def monitor(ctx, spec, r):
                     return
 
 
+def pre_build(ctx):
+    import gen_units
+    gen_units.pre_build(ctx, "translate_memory")
+
+
 def run(ctx):
+    import gen_units
+    gen_units.g_unit(ctx, "translate_memory")
     c20.run(ctx, only={"memory_dict<->dataframe", "values2positions", "value2position"})
     u = ctx.unit("D:search(memory_warm_start)", "D",
                  "search() with memory_warm_start frames: arbitrary subsets of the space with scores that differ from the "
